@@ -309,6 +309,8 @@ type fakeNode struct {
 	log []string // request/answer log since the last takeLog()
 
 	gov string // governance contract address the watcher is configured with
+	key string // X-API-KEY of the current case: late requests of an earlier case's goroutines are refused and not logged
+	seq int
 
 	// tables; a missing key means the node answers 404, a key in errs means HTTP 500
 	errs    map[string]bool // "main:<bh>", "hdr:<bh>", "height", "status:<tx>", "txev:<tx>", "count", "page:<start>"
@@ -347,6 +349,8 @@ func newFakeNode() *fakeNode {
 func (n *fakeNode) reset() {
 	n.mu.Lock()
 	defer n.mu.Unlock()
+	n.seq++
+	n.key = fmt.Sprintf("case-%d", n.seq)
 	n.log = nil
 	n.errs = map[string]bool{}
 	n.main = map[string]bool{}
@@ -412,6 +416,13 @@ func evJSON(e *evSpec, byTx bool) string {
 func (n *fakeNode) serve(w http.ResponseWriter, r *http.Request) {
 	p := r.URL.Path
 	q := r.URL.Query()
+	n.mu.Lock()
+	stale := r.Header.Get("X-API-KEY") != n.key
+	n.mu.Unlock()
+	if stale {
+		n.fail(w, 503)
+		return
+	}
 	switch {
 	case strings.HasPrefix(p, "/events/contract/") && strings.HasSuffix(p, "/current-count"):
 		addr := strings.TrimSuffix(strings.TrimPrefix(p, "/events/contract/"), "/current-count")
